@@ -5,6 +5,9 @@
 #include <occa/types/json.hpp>
 #include <occa/internal/utils/gc.hpp>
 #include <occa/internal/lang/kernelMetadata.hpp>
+#ifdef LIBOCCA_OCCA_VERIF
+#include <occa/internal/verif.hpp>
+#endif
 
 namespace occa {
   class modeDevice_t {
@@ -26,6 +29,10 @@ namespace occa {
     udim_t maxBytesAllocated;
 
     cachedKernelMap cachedKernels;
+
+#ifdef LIBOCCA_OCCA_VERIF
+    verif::liveToken<verif::clsDevice> verifLiveToken;
+#endif
 
     modeDevice_t(const occa::json &json_);
 
